@@ -116,6 +116,8 @@ def h_append(en, con, vals, site):
     vault, element = vals["self"], vals["str_or_element"]
     if not isinstance(element, ObjV):
         raise Unsupported("append of text")
+    if "__attrs" in vault.fields:
+        return None      # attribute-model element (typed-value specs): children are not modelled
     kind = _kind_of_wrapper(element)
     t = _items(vault, kind)
     node = element.fields["node"]
@@ -170,7 +172,7 @@ contract("odfdo.element:Element._get_element_idx2", call=h_get_element_idx2, **_
 contract("odfdo.element:Element.index", call=h_index, **_EXT)
 contract("odfdo.element:Element.delete", call=h_delete, **_EXT)
 contract("odfdo.element:Element.insert", call=h_insert, **_EXT)
-contract("odfdo.element:Element._Element__append", call=h_append, **_EXT)
+contract("odfdo.element:Element.__append", call=h_append, **_EXT)
 for _cls in ("odfdo.cell:Cell", "odfdo.row:Row", "odfdo.table:Column"):
     contract(_cls + ".clone", call=h_clone_item, **_EXT)
     contract(_cls + "._set_repeated", call=h_set_repeated, **_EXT)
